@@ -87,6 +87,7 @@ func verifAsk4(mw *Middleware, up *verifUpstream4, ad, do bool) *dns.Msg {
 //verif:harness name=H04e-cached-equals-fresh tier=quick,thorough bounds="first requester and second requester of the same question with independent symbolic AD / DO bits; upstream answer with symbolic AD, rcode from {NOERROR, NXDOMAIN}, scope zero or not; second requester compared with a cache-less twin; one-slot cache stub" reach=hit,compared maxpaths=50000
 //verif:assume no expiry between the two requests (TTL 300, same instant); upstream is a function of the question
 func VerifC04CachedEqualsFresh() {
+	verifPoolMode(1) // released pooled objects (cache requests, cloned messages) are handed back
 	verifSetClock(1 << 40)
 	up := &verifUpstream4{ad: nondetBool(), rcode: []int{dns.RcodeSuccess, dns.RcodeNameError}[verifChoice(2)], ttl: 300}
 	if verifChoice(2) == 1 {
